@@ -144,6 +144,10 @@ func lenAtLeast(f *ssa.Function, in ssa.Instruction, path string, k int64) bool 
 			n, _ := strconv.ParseInt(m[1], 10, 64)
 			return n >= k
 		}
+		// len != 0 (a length is never negative) => len >= 1
+		if m := eqLenRe.FindStringSubmatch(cnd); m != nil && m[2] == path && !pol && m[1] == "0" {
+			return k <= 1
+		}
 		return false
 	})
 }
